@@ -997,7 +997,7 @@ cPresetMap(
     printf("** PresetMap() allocates " IFMT " reals to lusup[*]....\n", nextpos);
 #endif
 
-    free (marker);
+    SUPERLU_FREE (marker);
     return nextpos;
 }
 
